@@ -89,8 +89,14 @@ fn m_functions(rng: &mut Rng, p: &mut Prog) {
     p.pous += "FUNCTION Bump : DINT\nVAR_IN_OUT\n  x : DINT;\nEND_VAR\nVAR_INPUT\n  d : DINT;\nEND_VAR\nx := x + d;\nBump := x;\nEND_FUNCTION\n";
     p.pous += "FUNCTION Scan : DINT\nVAR_INPUT\n  n : DINT;\nEND_VAR\nVAR_OUTPUT\n  hit : BOOL;\nEND_VAR\nVAR\n  k : DINT;\n  acc : DINT;\nEND_VAR\nFOR k := DINT#0 TO n DO\n  IF k > DINT#4 THEN\n    hit := TRUE;\n    EXIT;\n  END_IF;\n  IF k = DINT#3 THEN\n    CONTINUE;\n  END_IF;\n  acc := acc + Add3(k, DINT#1, DINT#0);\nEND_FOR;\nIF acc > DINT#100 THEN\n  Scan := DINT#100;\n  RETURN Scan;\nEND_IF;\nScan := acc;\nEND_FUNCTION\n";
     p.pous += "FUNCTION Quot : DINT\nVAR_INPUT\n  a : DINT;\n  b : DINT;\nEND_VAR\nQuot := a / b;\nEND_FUNCTION\n";
+    // parameters declared outputs / in-outs FIRST and of other types than the input: positional (non-formal) calls must bind in declaration order
+    p.pous += "FUNCTION Mix2 : DINT\nVAR_OUTPUT\n  o : INT;\nEND_VAR\nVAR_INPUT\n  a : DINT;\nEND_VAR\no := INT#5;\nMix2 := a + DINT#1;\nEND_FUNCTION\n";
+    p.pous += "FUNCTION Mix : DINT\nVAR_OUTPUT\n  o : INT;\nEND_VAR\nVAR_IN_OUT\n  io : BOOL;\nEND_VAR\nVAR_INPUT\n  a : DINT;\nEND_VAR\no := INT#5;\nio := NOT io;\nMix := a + DINT#1;\nEND_FUNCTION\n";
     for _ in 0..rng.range(2, 6) {
-        let s = match rng.below(11) {
+        let s = match rng.below(14) {
+            11 => format!("i2 := Bump(i, {});\n", dlit(rng.range(1, 3))),
+            12 => format!("i := Mix(j, b2, {});\n", dexpr(rng)),
+            13 => "i := Mix2(j, i2);\n".to_string(),
             0 => format!("i := Add3({}, {}, {});\n", dexpr(rng), dexpr(rng), dexpr(rng)),
             1 => format!("i := Add3(a := {}, b := {});\n", dexpr(rng), dexpr(rng)),
             2 => format!("i := Add3(c := {}, a := {}, b := {});\n", dexpr(rng), dexpr(rng), dexpr(rng)),
